@@ -216,7 +216,7 @@ PROPS["C17"] = {
             "arguments its signature accepts, positional and keyword call styles name the arguments identically; actor_run signals "
             "go to the processor's own connection for any creation history (true since the fix recorded for C17, refuted by "
             "witness for the class-level wrapper). Tie: ~260 sequences of directly called wrapped operations on 1-2 connections "
-            "with generated subscribers (each re-run without subscribers), ~70 deliveries through Workers of two live connections.",
+            "with generated subscribers (each re-run without subscribers), ~70 deliveries through Workers of two live connections; on the Redis and RabbitMQ consumers: consume() with suspending before_/after_consume subscribers, finish() and the caller's cancellation on a grid of loop iterations (~290 runs): nothing left behind (oracle only; the same grid is model-checked step by step under C03).",
     "note": "In-memory brokers only. Subscribers raising BaseException, cancellation inside emit_signal and the relative order of "
             "sync (thread-pool) subscribers within one signal are outside the model. The accepted-keyword rule is "
             "getfullargspec(fn).args (keyword-only names are not passed), as the code does.",
